@@ -331,8 +331,88 @@ def run_primitive(ctx):
     tlcmod.cleanup(res)
 
 
+# ---------------------------------------------------------------------------
+# SNF3x3 iterator against the transcribed step machine (spec/SNF.tla)
+# ---------------------------------------------------------------------------
+CFG_SNF = """INIT TInit
+NEXT Step
+CONSTANTS
+ Events <- MCEvents
+ MaxAttempts = 12
+CHECK_DEADLOCK FALSE
+INVARIANT InvLoop
+INVARIANT ReqContract
+INVARIANT ReqTerminates
+INVARIANT ImplContract
+INVARIANT ConformsStep
+INVARIANT ConformsEnd
+INVARIANT ConformsNotEarly
+"""
+
+
+def snf_events(ctx, mats):
+    events = []
+    for S in mats:
+        if det3(S) == 0:
+            continue
+        snf = SNF3x3(np.array(S))
+        steps = []
+        err = None
+        for _ in range(40):
+            try:
+                next(snf)
+                steps.append(snf.A.tolist())
+            except StopIteration:
+                steps.append(snf.A.tolist())
+                break
+            except Exception as e:  # noqa
+                err = e
+                break
+        if err is not None or snf.P is None:
+            ctx.violation("snf:no-result", "SNF3x3 raised or did not terminate on a non-singular matrix",
+                          dict(A=S, error=repr(err), calls=len(steps)))
+            continue
+        events.append(dict(A0=S, steps=steps, P=snf.P.tolist(), Q=snf.Q.tolist(), D=snf.D.tolist()))
+        ctx.count(("snf", tuple(map(tuple, S))))
+    return events
+
+
+def run_snf_trace(ctx, mats):
+    from harness import tlc as tlcmod
+    # also the transposes (get_commensurate_points_in_integers feeds S^T) and larger entries
+    extra = []
+    n = 200 if ctx.quick else 3000
+    while len(extra) < n:
+        m = [[ctx.rng.randint(-6, 6) for _ in range(3)] for _ in range(3)]
+        if 0 < abs(det3(m)) <= 60:
+            extra.append(m)
+    events = snf_events(ctx, list(mats) + extra)
+    ctx.extra["snf_events"] = len(events)
+    ctx.extra["snf_max_calls"] = max(len(e["steps"]) for e in events)
+    ctx.traces += len(events)
+    ctx.sample(dict(kind="snf", **max(events, key=lambda e: len(e["steps"]))))
+    mc = "---- MODULE MC_SNFTrace ----\nEXTENDS SNFTrace\nMCEvents == {%s}\n====\n" % ",\n".join(to_tla(e) for e in events)
+    res = ctx.tlc("MC_SNFTrace", cfg_text=CFG_SNF, extra_files={"MC_SNFTrace.tla": mc},
+                  requirement=False, extra_args=("-continue",), keep=True)
+    violated = sorted(set(nm for nm, _ in res.violations))
+    wit = {}
+    for nm, tr in res.violations:
+        if nm not in wit and tr:
+            stt = tr[-1][1]
+            wit[nm] = dict(A0=stt.get("ev", {}).get("A0"), attempt=stt.get("attempt"), machine_A=stt.get("st", {}).get("A"))
+    req = [v for v in violated if v in ("ImplContract", "ReqContract", "ReqTerminates", "InvLoop")]
+    for v in req:
+        ctx.violation("snf:" + v, "Smith normal form: %s fails" % v, dict(invariant=v, witness=wit.get(v)))
+    drift = [v for v in violated if v.startswith("Conforms")]
+    if drift and not req:
+        ctx.extra["SPEC-DRIFT-snf"] = dict(invariants=drift, witness={v: wit.get(v) for v in drift})
+        print("SPEC-DRIFT C04 snf: %s (contract intact)" % drift)
+    tlcmod.cleanup(res)
+
+
 def run(ctx):
-    run_supercell(ctx)
+    mats = run_supercell(ctx)
+    run_snf_trace(ctx, mats)
     try:
         run_primitive(ctx)
     except Exception:
@@ -379,3 +459,4 @@ def run_supercell(ctx):
         ctx.extra["SPEC-DRIFT"] = drift
         print("SPEC-DRIFT C04: %s (requirement intact)" % drift)
     tlcmod.cleanup(res)
+    return Ss
